@@ -74,7 +74,7 @@ def gen_data(rs, n, nx, ny, paired, flavour):
 def gen_cases(rs, tier):
     quick = tier != 'thorough'
     cases = []
-    N = 260 if quick else 5000
+    N = 230 if quick else 5000
     for t in range(N):
         paired = (t % 3 == 2)
         n = int(rs.randint(4, 7))
@@ -100,6 +100,31 @@ def gen_cases(rs, tier):
         cases.append({'n': n, 'nx': nx, 'ny': ny, 'x': x.astype(int).tolist(), 'y': y.astype(int).tolist(),
                       'thr': float(np.round(rs.uniform(0.6, 2.2), 4)), 'tail': TAILS[(t // 3) % 3], 'paired': False, 'k': int(rs.randint(40, 81)),
                       'seed': int(rs.randint(2 ** 31 - 1)), 'flavour': 'equal-groups', 'exp': 0, 'cexp': None, 'scale': 'unit',
+                      'dtype': 'float64', 'order': 'C'})
+    # ---- long-diameter suprathreshold components: a Hamiltonian path of strong effects through randomly labelled nodes, n not a power of two
+    for t in range(16 if quick else 160):
+        n = (6, 7, 10, 11, 12, 13, 14, 15)[t % 8]
+        paired = (t % 4 == 3)
+        nx = int(rs.randint(4, 7)); ny = nx if paired else nx + 1
+        x = rs.randint(0, 4, size=(n, n, nx)).astype(float); y = rs.randint(0, 4, size=(n, n, ny)).astype(float)
+        for a_ in (x, y):
+            for s_ in range(a_.shape[2]):
+                a_[:, :, s_] = np.triu(a_[:, :, s_], 1) + np.triu(a_[:, :, s_], 1).T
+        order = rs.permutation(n)
+        cut = int(rs.randint(2, n - 2)) if t % 3 == 2 else None          # sometimes two chains
+        sgn = 1 if t % 2 else -1
+        for q in range(n - 1):
+            if cut is not None and q == cut:
+                continue
+            i, j = int(order[q]), int(order[q + 1])
+            dlt = sgn * int(rs.randint(12, 18))
+            x[i, j, :] += dlt; x[j, i, :] += dlt
+        mn = min(x.min(), y.min())
+        if mn < 0:
+            x -= mn; y -= mn
+        cases.append({'n': n, 'nx': nx, 'ny': ny, 'x': x.astype(int).tolist(), 'y': y.astype(int).tolist(),
+                      'thr': float(np.round(rs.uniform(4.5, 6.5), 4)), 'tail': ('both', 'right' if sgn > 0 else 'left')[t % 2] if True else 'both', 'paired': paired,
+                      'k': int(rs.randint(10, 21)), 'seed': int(rs.randint(2 ** 31 - 1)), 'flavour': 'chain', 'exp': 0, 'cexp': None, 'scale': 'unit',
                       'dtype': 'float64', 'order': 'C'})
     # ---- the same kind of data in exact dyadic units: t is scale invariant, every predicate must be unchanged
     M = 90 if quick else 1500
@@ -229,7 +254,7 @@ def run_case(c):
         x = np.array(x.astype(dt), order=c.get('order', 'C')); y = np.array(y.astype(dt), order=c.get('order', 'C'))
         assert np.array_equal(x.astype(float), np.array(c['x'], dtype=float)) and np.array_equal(y.astype(float), np.array(c['y'], dtype=float))
     thr, tail, paired, k = c['thr'], c['tail'], c['paired'], c['k']
-    out = {'fails': [], 'status': None, 'line': None, 'expected': None, 'skipped': False, 'ncomp': 0, 'undefined': 0, 'sym': 0}
+    out = {'fails': [], 'status': None, 'line': None, 'expected': None, 'skipped': False, 'ncomp': 0, 'undefined': 0, 'sym': 0, 'maxnodes': 0}
     F = out['fails']
     rec = Recorder(c['seed'])
     x0, y0 = x.copy(), y.copy()
@@ -296,6 +321,7 @@ def run_case(c):
     # ---- labels up to renaming
     comps = orc['comps']
     out['ncomp'] = len(comps)
+    out['maxnodes'] = max([len(cc[0]) for cc in comps] + [0])
     labs = []
     ok = True
     for nodes, es in comps:
@@ -350,6 +376,78 @@ def run_case(c):
     if st3 != 'ok' or not np.array_equal(canon_adj(v3[1]), base):
         F.append(('subject-reorder', {'px': px.tolist(), 'py': py.tolist(), 'adj': adj.tolist(), 'adj_reordered': v3[1].tolist() if st3 == 'ok' else str(v3)}, cond))
     return out
+
+
+
+# ------------------------------------------------------------------ history / object-reuse probes
+
+def gen_probes(rs, tier):
+    P = []
+    for t in range(48 if tier != 'thorough' else 400):
+        paired = (t % 3 == 2)
+        n = int(rs.randint(4, 7)); nx = int(rs.randint(3, 7)); ny = nx if paired else nx + int(rs.randint(1, 3))
+        x, y, eff = gen_data(rs, n, nx, ny, paired, ('plain', 'const')[t % 2])
+        P.append({'probe': ('edit-subject', 'edit-returned', 'other-size-between')[t % 3], 'n': n, 'nx': nx, 'ny': ny,
+                  'x': x.astype(int).tolist(), 'y': y.astype(int).tolist(), 'thr': float(np.round(rs.uniform(0.8, 2.2), 4)),
+                  'tail': TAILS[int(rs.randint(3))], 'paired': paired, 'k': int(rs.randint(8, 16)), 'seed': int(rs.randint(2 ** 31 - 1)),
+                  'eff': [list(e) for e in eff]})
+    return P
+
+
+def run_probe(pc):
+    """nbs_bct is a function of (x, y, thresh, k, tail, paired, seed): same stacks twice, one subject's matrix edited in place in between"""
+    import copy
+    bct = import_bct()
+    x = np.array(pc['x'], dtype=float); y = np.array(pc['y'], dtype=float); n = pc['n']
+    prs = np.random.RandomState(pc['seed'] % 65521)
+    kw = dict(k=pc['k'], tail=pc['tail'], paired=pc['paired'])
+    out = {'probe': pc['probe'], 'fail': None, 'ran': 0}
+
+    def fn(a, b, seed=None):
+        return tuple(np.asarray(z).copy() for z in bct.nbs_bct(a, b, pc['thr'], seed=seed, **kw))
+
+    def mutate(args):      # one subject's matrix gets a strong symmetric effect on one more connection (both stacks stay symmetric)
+        a = args[int(prs.randint(2))]
+        s_ = int(prs.randint(a.shape[2])); i = int(prs.randint(n)); j = (i + 1 + int(prs.randint(n - 1))) % n
+        a[i, j, s_] += 9; a[j, i, s_] += 9
+        if pc['paired']:       # keep the pairing meaningful: nothing else to do, shapes unchanged
+            pass
+    if pc['probe'] == 'edit-subject':
+        res = reuse_probe(fn, [x, y], mutate, t=60.0, seed=int(pc['seed'] % 100000))
+        out['ran'] = 1
+        if res is not None:
+            out['fail'] = res
+    elif pc['probe'] == 'edit-returned':
+        sd = int(pc['seed'] % 100000)
+        s1, r1 = call(bct.nbs_bct, x, y, pc['thr'], seed=sd, t=60.0, **kw)
+        if s1 == 'ok':
+            want = copy.deepcopy(r1)
+            for a in r1:
+                a *= -2.0
+            s2, r2 = call(bct.nbs_bct, x, y, pc['thr'], seed=sd, t=60.0, **kw)
+            out['ran'] = 1
+            if s2 != 'ok' or not same_result(r2, want, 0.0) or not (np.array_equal(x, np.array(pc['x'], dtype=float)) and np.array_equal(y, np.array(pc['y'], dtype=float))):
+                out['fail'] = {'first': str(want)[:300], 'second_after_editing_returned_arrays': str(r2)[:300]}
+    else:                      # a call on stacks of another size / tail between two identical calls
+        sd = int(pc['seed'] % 100000)
+        s1, r1 = call(bct.nbs_bct, x.copy(), y.copy(), pc['thr'], seed=sd, t=60.0, **kw)
+        want = copy.deepcopy(r1)
+        m2 = n + 1
+        x2 = prs.randint(0, 9, size=(m2, m2, pc['nx'])).astype(float); y2 = prs.randint(0, 9, size=(m2, m2, pc['ny'])).astype(float) + 3
+        for a_ in (x2, y2):
+            for s_ in range(a_.shape[2]):
+                a_[:, :, s_] = np.triu(a_[:, :, s_], 1) + np.triu(a_[:, :, s_], 1).T
+        call(bct.nbs_bct, x2, y2, 0.5, k=5, tail=SWAP[pc['tail']], paired=pc['paired'], seed=sd + 1, t=60.0)
+        call(bct.nbs_bct, y.copy(), x.copy(), pc['thr'], k=5, tail=pc['tail'], paired=pc['paired'], seed=sd + 2, t=60.0)
+        s2, r2 = call(bct.nbs_bct, x.copy(), y.copy(), pc['thr'], seed=sd, t=60.0, **kw)
+        out['ran'] = 1
+        if s1 != s2 or (s1 == 'ok' and not same_result(r2, want, 0.0)) or (s1 == 'exc' and exc_kind(r1) != exc_kind(r2)):
+            out['fail'] = {'first': str(want)[:300], 'after_other_calls': str(r2)[:300]}
+    return out
+
+
+def run_any(c):
+    return run_probe(c) if 'probe' in c else run_case(c)
 
 
 def expected_line(st, v, k):
@@ -409,7 +507,7 @@ def main():
     ck = Check(PID)
     ck.cov['rule'] = ('cases = (x stack, y stack, threshold, tail, paired, k, seed): N = 4..6 nodes, integer-valued symmetric matrices, group sizes 3..7 '
                       '(unequal unless paired), effect clusters of either sign, constant (zero-variance) edges, k = 20..50, thresholds mostly 1..2.8 plus '
-                      'small / huge / negative ones; stacks passed as float64 / float32 / int64 / int32 / int16 / uint8 / uint16 / uint32 in C or Fortran order; two-sample cases with equal small groups (3+3, 4+4, 5+5, k = 40..80); a family with the same data in exact dyadic units (all data x 2^-30, 2^-40, 2^20; single effect edges at 2^-35 next to unit-scale edges); non-trivial = distinct case in which nbs_bct returned and the oracle finds at least one component; '
+                      'small / huge / negative ones; chains (Hamiltonian paths of strong effects, n = 6, 7, 10..15, random labels, sometimes cut in two); the case list is shuffled before it is split over the workers; history / object-reuse probes (a subject edited in place between two calls on the same stacks with the same seed, returned arrays edited in place, calls on other sizes / tails in between); stacks passed as float64 / float32 / int64 / int32 / int16 / uint8 / uint16 / uint32 in C or Fortran order; two-sample cases with equal small groups (3+3, 4+4, 5+5, k = 40..80); a family with the same data in exact dyadic units (all data x 2^-30, 2^-40, 2^20; single effect edges at 2^-35 next to unit-scale edges); non-trivial = distinct case in which nbs_bct returned and the oracle finds at least one component; '
                       'cases with an attained statistic within 1e-6 of the threshold are skipped and counted')
     ck.assumptions += ['data are integer valued so that exact and float statistics differ by far less than the 1e-6 threshold margin',
                        'group sizes >= 3 (property quantifier); the t statistic of an edge that is constant over all subjects (0/0) is treated as not exceeding any threshold >= 0',
@@ -420,10 +518,18 @@ def main():
     if ck.replay:
         cases = [json.load(open(ck.replay))['case']['case']]
     else:
-        cases = gen_cases(ck.rs, ck.tier)
-    results = pmap(run_case, cases)
+        cases = gen_cases(ck.rs, ck.tier) + gen_probes(ck.rs, ck.tier)
+        # interleave: no worker sees the cases grouped by family, size, tail or test (state carried across calls must not line up with the order)
+        cases = [cases[i] for i in ck.rs.permutation(len(cases))]
+    results = pmap(run_any, cases)
     lines, meta = [], []
     for c, r in zip(cases, results):
+        if 'probe' in c:
+            ck.count('probe:' + c['probe'], r['ran'])
+            ck.case(nontrivial_key=digest(c) if r['ran'] else None)
+            if r['fail'] is not None:
+                ck.violation('nbs_bct', 'result-depends-on-history', {'case': c, 'info': r['fail']}, {'degenerate_two_sample': False, 'degenerate_two_sample_null': False})
+            continue
         ck.count('status:' + str(r['status'])); ck.count('n=%d' % c['n']); ck.count('tail:' + c['tail']); ck.count('paired' if c['paired'] else 'two-sample')
         ck.count('flavour:' + c['flavour']); ck.count('dtype:%s/%s' % (c.get('dtype', 'float64'), c.get('order', 'C'))); ck.count('scale:' + c.get('scale', 'unit')); ck.count('symmetry_calls', r['sym']); ck.count('undefined_t_cells(0/0)', r['undefined'])
         if r['skipped']:
@@ -432,6 +538,8 @@ def main():
         ck.case(sample={k_: c[k_] for k_ in ('n', 'nx', 'ny', 'thr', 'tail', 'paired', 'k', 'seed', 'flavour', 'scale', 'exp')} | {'components': r['ncomp'], 'x[:,:,0]': np.array(c['x'])[:, :, 0].tolist()} if nontriv else None,
                 nontrivial_key=digest([c['x'], c['y'], c['thr'], c['tail'], c['paired'], c['k'], c['seed'], c.get('exp'), c.get('cexp')]) if nontriv else None)
         ck.count('components=%d' % min(r['ncomp'], 3))
+        if c['flavour'] == 'chain':
+            ck.count('chain:n=%d:largest-component-nodes=%d' % (c['n'], r['maxnodes']))
         for pred, info, cond in r['fails']:
             ck.violation('nbs_bct', pred, {'case': c, 'info': info}, cond)
         if r['line'] is not None and r['expected'] is not None:
